@@ -82,7 +82,7 @@ extern "C" void harness_c21_pow_div()
     long B = verif_param("B", 5);
     Vec a = sym_vec("a", 2, -B, B), b = sym_vec("b", 2, -B, B);
     RCP<const UIntPoly> p = UIntPoly::from_vec(x, a), q = UIntPoly::from_vec(x, b);
-    unsigned k = (unsigned)verif_choice("k", 4);
+    unsigned k = (unsigned)verif_choice("k", verif_param("kmax", 4));
     Vec e = {integer_class(1)};
     for (unsigned i = 0; i < k; i++)
         e = conv(e, a);
@@ -96,6 +96,26 @@ extern "C" void harness_c21_pow_div()
         if (dv)
             assert_coeffs(*quo, a, "(p*q)/q == p");
     }
+    VERIF_END();
+}
+// exact division with a three-term divisor: d | d*m always, also when the product has fewer terms than d (cancellation)
+extern "C" void harness_c21_divides()
+{
+    RCP<const Symbol> x = symbol("x");
+    long B = verif_param("B", 2);
+    Vec d = sym_vec("d", 3, -B, B), m = sym_vec("m", 2, -B, B);
+    verif_assume(d[2] != 0);
+    RCP<const UIntPoly> dp = UIntPoly::from_vec(x, d), mp = UIntPoly::from_vec(x, m);
+    RCP<const UIntPoly> prod = mul_upoly(*dp, *mp), quo;
+    bool dv = divides_upoly(*dp, *prod, outArg(quo));
+    verif_assert(dv, "d divides d*m");
+    if (dv)
+        assert_coeffs(*quo, m, "(d*m)/d == m");
+    // and d does not divide d*m + 1 (the remainder 1 has lower degree than d)
+    Vec pm = conv(d, m);
+    pm[0] += 1;
+    RCP<const UIntPoly> off = UIntPoly::from_vec(x, pm), q2;
+    verif_assert(!divides_upoly(*dp, *off, outArg(q2)), "d does not divide d*m + 1");
     VERIF_END();
 }
 // conversion round trip: from_basic(as_symbolic(p)) == p and as_symbolic is the expanded expression
